@@ -25,6 +25,8 @@ func init() {
 				Quick: map[string]int{}, Witnesses: []string{"two-connections-accepted"}},
 			{Pkg: "wire", Entry: "VerifH15c", What: "a graceful Close that begins (in another goroutine) while a statement function is in the middle of its result set: the closing goroutine and the connection share no unsynchronised memory, and every row is delivered",
 				Quick: map[string]int{}, Witnesses: []string{"close-began-during-a-result-set"}},
+			{Pkg: "wire", Entry: "VerifH14t", What: "two connections that registered different codecs under one object id on their own type maps: each one's binary COPY value is decoded as if the connection were served alone",
+				Quick: map[string]int{}, Witnesses: []string{"same-object-id-registered-differently-on-two-connections"}},
 			{Pkg: "wire", Entry: "VerifH09t", What: "a customisation one connection makes to the type map it was handed does not reach a later connection",
 				Quick: map[string]int{}, Witnesses: []string{"type-registered-by-an-earlier-connection"}},
 			{Pkg: "wire", Entry: "VerifH07b", What: "names of one connection are invisible to the next", Quick: map[string]int{}, Witnesses: []string{"isolated"}},
